@@ -543,10 +543,20 @@ impl<'t> World<'t> {
             (valid[i], true)
         } else if i == valid.len() {
             (ClassId::Interval(n + (raw as usize / 16) % 3), false)
-        } else if re.empty_complement() {
+        } else if re.empty_complement() && raw % 3 != 0 {
             (ClassId::Complement, false)
         } else {
-            (ClassId::Interval(n + 7), false)
+            // invalid interval ids: just past the end, far past it, and values whose low 32 bits
+            // look like a valid index
+            let j = (raw as usize / 7) % n.max(1);
+            let id = match (raw / 3) % 5 {
+                0 => n + 7,
+                1 => (1usize << 32) + j,
+                2 => (3usize << 32) + j,
+                3 => usize::MAX,
+                _ => n + 65_536,
+            };
+            (ClassId::Interval(id), false)
         }
     }
 
